@@ -74,7 +74,9 @@ fn main() {
     } else {
         let tier = args[2].as_str();
         let seed: u64 = args[3].parse().expect("seed");
-        let thorough = tier == "thorough";
+        // "widen" = the thorough generators at one eighth of their volume (the bounded second search of ./check)
+        let thorough = tier == "thorough" || tier == "widen";
+        if tier == "widen" { solver::DIV.store(8, std::sync::atomic::Ordering::SeqCst); }
         let mut rng = Rng(seed ^ 0x5851F42D4C957F2D);
         match domain {
             "semver" => semver::generate(&mut out, &mut rng, thorough),
